@@ -1,7 +1,7 @@
 (* C18 — Every optimizer honours the uniform construction / configuration API. *)
 From Coq Require Import String List Bool Arith.
 From PV Require Import Xnum Select PyLib Skeleton Lifecycle Lifecycle_proofs Loop Loop_proofs.
-From PVGen Require Import Algos Expected GenSchema GenStop.
+From PVGen Require Import Algos Expected GenSchema GenStop GenHyper.
 From PVBridge Require Import AlgoBridge LifeMain LoopBridge C04Main.
 
 (* every exported optimizer: the constructor dereferences nothing of the configuration (it can be built with None) and
@@ -33,3 +33,9 @@ Proof. exact result_depends_on_inputs_only. Qed.
 Print Assumptions C18_ctor_and_set_config.
 Print Assumptions C18_refuses_without_config.
 Print Assumptions C18_set_config_run_equiv.
+
+(* state shared between objects (regenerated scan of the whole package: memoising decorators, mutable class attributes of non-pydantic classes, module-level
+   containers mutated by functions): there is none - a reconfigured instance finds nothing memoised from its earlier configuration *)
+Theorem C18_no_shared_mutable_state : gen_no_shared_mutable_state = true.
+Proof. reflexivity. Qed.
+Print Assumptions C18_no_shared_mutable_state.
